@@ -1048,11 +1048,29 @@ func layerB3(c *core.Ctx, st *stats) {
 		// the comment sits in front of token k+1; k decides where that token is relative to the poll
 		firsts = append(firsts, genInput{fmt.Sprintf("pad%d", k), strings.Repeat("a", k) + " ! a" + strings.Repeat("b", 700)})
 	}
+	var long strings.Builder
+	for i := 0; i < 1200; i++ {
+		if i%5 == 0 {
+			long.WriteString("!")
+		}
+		if i%3 == 1 {
+			long.WriteString("b")
+		} else {
+			long.WriteString("a ")
+		}
+	}
+	long.WriteString(" !")
+	commented := []genInput{{"commented1200", long.String()}, {"short1", "a !"}, {"short2", "!a!b ! a !"}}
 	var specs []genharness.Spec
 	for _, p := range ps {
 		var cases []genharness.Case
 		for _, f := range firsts {
 			cases = append(cases, genharness.Case{Mode: "hist", Text: histMoments + ";in=" + f.Text + "\x00" + strings.Join(histSeconds, "\x00")})
+		}
+		// and single parses of commented inputs at EVERY moment: reported white-space-like tokens
+		// after the cancellation point (also right before the end of input)
+		for _, in := range commented {
+			cases = append(cases, genharness.Case{Mode: "refsweep", Text: "all;x=-3;in=" + in.Text})
 		}
 		specs = append(specs, genharness.Spec{Name: p.Name, TM: p.TM, Driver: driver, Cases: cases})
 	}
@@ -1065,7 +1083,7 @@ func layerB3(c *core.Ctx, st *stats) {
 	}
 	for i, p := range ps {
 		out := outs[i]
-		if out.GenErr != "" || out.GenPanic != "" || out.BuildErr != "" || len(out.Results) != len(firsts) {
+		if out.GenErr != "" || out.GenPanic != "" || out.BuildErr != "" || len(out.Results) != len(firsts)+len(commented) {
 			c.Violate("layerB:parser-not-built:"+p.Name, fmt.Sprintf("generate/build failed: %s %s %s", out.GenErr, out.GenPanic, out.BuildErr), genCase{Parser: p.Name, TM: p.TM})
 			continue
 		}
@@ -1093,6 +1111,29 @@ func layerB3(c *core.Ctx, st *stats) {
 		st.compared += int64(runs)
 		c.Eval(int64(runs))
 		c.Add("history_runs_generated", int64(runs))
+		for j, in := range commented {
+			res := out.Results[len(firsts)+j]
+			gc := genCase{Parser: p.Name, TM: p.TM, Input: in.Name, Text: in.Text, S: -1}
+			if res.Hang || res.Panic != "" || res.Extra == nil || res.Extra["records"] == nil {
+				c.Violate("layerB:sweep-failed:"+p.Name, fmt.Sprintf("the sweep did not complete: hang=%v panic=%q", res.Hang, res.Panic), gc)
+				continue
+			}
+			ref, err := buildRef(res)
+			if err != nil || ref.rec.ErrKind != "nil" {
+				c.Violate("layerB:reference-run:"+p.Name, fmt.Sprintf("reference run of a valid input: %v %s", err, res.ErrMsg), gc)
+				continue
+			}
+			comments := 0
+			for _, e := range res.Events {
+				if e.Type == "Comment" {
+					comments++
+				}
+			}
+			if comments == 0 {
+				c.Capped(p.Name + "/" + in.Name + ": no Comment event in the reference run")
+			}
+			judgeGenRecords(c, st, p, in, ref, res.Extra["records"].([]any), 0)
+		}
 	}
 }
 
@@ -1180,6 +1221,7 @@ func shippedParsers() []shippedParser {
 			Name: "js",
 			Inputs: []genInput{
 				{"assign400", strings.Repeat("a = b + 1;\n", 400)},
+				{"commented300", strings.Repeat("a = b /*c*/ + 1; // d\n", 300) + "/*e*/"},
 				{"func150", strings.Repeat("function f(x) { return x * 2; }\n", 150)},
 				{"ifelse80", strings.Repeat("if (a) { b(c, d); } else { e = [1, 2, 3]; }\n", 80)},
 			},
@@ -1204,6 +1246,9 @@ func shippedParsers() []shippedParser {
 					if t == jstoken.EOI {
 						return out
 					}
+					if ignoredToken(t.String()) {
+						continue
+					}
 					s, _ := l.Pos()
 					out = append(out, s)
 				}
@@ -1215,6 +1260,7 @@ func shippedParsers() []shippedParser {
 			Inputs: []genInput{
 				{"lexer260parser120", tmText.String()},
 				{"longrule700", tmLong.String()},
+				{"commented", "language l(go); # c\n:: lexer /*d*/\n" + strings.Repeat("k: /b/ # e\n", 250) + ":: parser\n" + strings.Repeat("r /*f*/ : k r | ; # g\n", 120) + "/*h*/"},
 			},
 			run: func(ctx context.Context, src string, node func(t, off, end int), onErr func(off, end int)) (error, string) {
 				var s tm.TokenStream
@@ -1237,6 +1283,9 @@ func shippedParsers() []shippedParser {
 					if t == tmtoken.EOI {
 						return out
 					}
+					if ignoredToken(t.String()) {
+						continue
+					}
 					s, _ := l.Pos()
 					out = append(out, s)
 				}
@@ -1247,6 +1296,7 @@ func shippedParsers() []shippedParser {
 			Name: "test",
 			Inputs: []genInput{
 				{"decl1x300", strings.Repeat("decl1(a.b.c)\n", 300)},
+				{"commented250", strings.Repeat("decl2 /*c*/ decl1(a.b) // d\n", 250) + "decl2 // e"},
 				{"block250", strings.Repeat("{ - decl2 7 [] test 5 } ", 250)},
 				{"eval120", strings.Repeat("eval(1.2+3+4) decl2 ", 120)},
 			},
@@ -1270,6 +1320,9 @@ func shippedParsers() []shippedParser {
 					if t == testtoken.EOI {
 						return out
 					}
+					if ignoredToken(t.String()) {
+						continue
+					}
 					s, _ := l.Pos()
 					out = append(out, s)
 				}
@@ -1277,6 +1330,13 @@ func shippedParsers() []shippedParser {
 			typ: func(t int) string { return test.NodeType(t).String() },
 		},
 	}
+}
+
+// ignoredToken: comments, white space and invalid tokens are returned by the lexers (they are
+// reported through the listener) but never shifted; the token bound counts shifted tokens.
+func ignoredToken(name string) bool {
+	n := strings.ToLower(name)
+	return strings.Contains(n, "comment") || strings.Contains(n, "whitespace") || strings.Contains(n, "invalid")
 }
 
 type pollCtx struct {
@@ -1605,6 +1665,14 @@ var shortSeeds = map[string][]string{
 	},
 }
 
+// shortCommented: short valid inputs whose comments (reported white-space-like tokens) come after
+// every possible cancellation point, including right before the end of input.
+var shortCommented = map[string][]string{
+	"js":   {"y; // c", "/*a*/ x = 1 /*b*/; // c\ny /*d*/"},
+	"tm":   {"language l(go); # c", "language /*a*/ l(go); :: lexer # b\nk: /x/ /*c*/"},
+	"test": {"decl2 // c", "/*a*/ decl2 /*b*/ decl1(q) // c\ndecl2 /*d*/"},
+}
+
 func malformedLong(name string) []genInput {
 	var sb strings.Builder
 	switch name {
@@ -1673,6 +1741,9 @@ func shippedInputs(p *shippedParser, quick bool) []shippedInput {
 		for mi, m := range tokenMutations(p, seed) {
 			out = append(out, shippedInput{genInput: genInput{fmt.Sprintf("short%d-mut%d", si, mi), m}, all: true, family: "malformed-short"})
 		}
+	}
+	for i, text := range shortCommented[p.Name] {
+		out = append(out, shippedInput{genInput: genInput{fmt.Sprintf("short-commented%d", i), text}, valid: true, all: true, family: "valid-short-commented"})
 	}
 	for _, k := range phaseKs(quick) {
 		if text, ok := phaseInput(p.Name, k); ok {
@@ -1850,12 +1921,15 @@ func run(c *core.Ctx) {
 	c.Assume("generated parsers: the clock is advanced by a lexer-rule action `{ verifTick() }` on every token rule; shipped parsers: by the listener")
 	c.Assume("event lists are compared through a 64-bit FNV-1a chain hash over (type, offset, endoffset)")
 	st := &stats{seen: map[string]bool{}}
+	// the shipped parsers first: in-process, a few seconds, and so never cut by the time budget
+	// that the generate+build batches of the generated parsers may use up on a loaded machine
+	shippedPart(c, st)
+	shippedHistories(c, st)
+	debugf("shipped done")
 	layerB(c, st)
 	layerB2(c, st)
 	layerB3(c, st)
 	debugf("layer B done")
-	shippedPart(c, st)
-	shippedHistories(c, st)
 	c.States(st.states)
 	c.Transitions(st.runs)
 	c.Traces(st.compared)
